@@ -94,6 +94,12 @@ func (d *Decls) typeKey(t types.Type) string {
 		return mangle(types.TypeString(t, nil))
 	case *types.Alias:
 		return d.typeKey(types.Unalias(t))
+	case *types.Basic:
+		return "b_" + mangle(u.Name()) // one key per Go type: int and int64 box to different dynamic types
+	case *types.Pointer:
+		return "p_" + d.typeKey(u.Elem())
+	case *types.Slice:
+		return "s_" + d.typeKey(u.Elem())
 	}
 	return mangle(d.sortOf(t))
 }
@@ -260,7 +266,8 @@ func (d *Decls) boxFns(t types.Type) (box, unbox string) {
 	k := d.typeKey(t)
 	box, unbox = "box_"+k, "unbox_"+k
 	s := d.sortOf(t)
-	d.add("box:"+k, fmt.Sprintf("(declare-fun %s (%s) Iface)\n(declare-fun %s (Iface) %s)", box, s, unbox, s))
+	d.add("box:"+k, fmt.Sprintf("(declare-fun %s (%s) Iface)\n(declare-fun %s (Iface) %s)\n(assert (forall ((x %s)) (! (and (= (%s (%s x)) x) (= (tagof (%s x)) %d)) :pattern ((%s x)))))",
+		box, s, unbox, s, s, unbox, box, box, d.tagOf(t), box))
 	return
 }
 
